@@ -11,8 +11,8 @@ FUNCS = ["MessageStore.processMessageLoop", "MessageStore.getOrCreateDeviceCache
          "MessageStore.processDeviceMessagesInQueue", "MessageStore.addToMessageQueue", "MessageStore.CacheSizeForDevicePK"]
 
 
-def S(arr, regs, known, cancel=False, win=0, regat=None):
-    return dict(arr=arr, regs=regs, known=known, cancel=cancel, win=win, regat=regat or {})
+def S(arr, regs, known, cancel=False, win=0, regat=None, kcancel=False):
+    return dict(arr=arr, regs=regs, known=known, cancel=cancel, win=win, regat=regat or {}, kcancel=kcancel)
 
 
 def scenarios(tier):
@@ -35,6 +35,10 @@ def scenarios(tier):
         S(["a1", "a2"], ["d1"], [], regat={"d1": 1}),
         S(["a2", "a1", "a3"], ["d1"], [], regat={"d1": 1}),
         S(["a1", "a2"], [], ["d1"], regat={"d1": 1}),
+        # the caller of ProcessMessageQueueForDevicePK has its own context, cancelled at any moment: the store lives
+        # on, everything parked must still be handed over (thread "kc"; only the blind schedules move it early)
+        S(["a1", "a2"], ["d1"], [], kcancel=True),
+        S(["a2", "a1", "a3"], ["d1"], [], kcancel=True),
     ]
     if tier != "quick":
         s += [S(["a1", "a2", "a3"], ["d1"], []), S(["a3", "a1", "a2"], ["d1"], []), S(["a1", "b1", "a2"], ["d1", "d2"], []),
@@ -57,11 +61,13 @@ DEFS0 = {"DevOf": "[" + ", ".join('%s |-> "%s"' % kv for kv in DEVOF.items()) + 
          "CtrOf": "[" + ", ".join('%s |-> %d' % kv for kv in CTROF.items()) + "]"}
 
 
-def gen(ctx):
-    scs = scenarios(ctx.tier)
+def gen(ctx, scs=None, design_level=True):
+    scs = scs or scenarios(ctx.tier)
     quick = ctx.tier == "quick"
     alldefs = dict(DEFS0, Scenarios="<<" + ", ".join(tla_scen(s) for s in scs) + ">>")
     design = {}
+    if not design_level:
+        return _gen_scripts(ctx, scs, alldefs, quick, exhaustive_first=False)
     for pul in ("TRUE", "FALSE"):
         r = ctx.tlc("MessagePipeline", "MC_MessagePipeline.cfg", name="mc_pul" + pul, consts={"ParkUnderLock": pul}, defs=alldefs,
                     allow_violation=True, workers=4, timeout=1500)
@@ -74,18 +80,25 @@ def gen(ctx):
     if r.ok:
         raise vf.Infra("model self-test: handing back only the lowest-counter message should strand a late joiner's messages in MessagePipeline.tla")
     ctx.extra["design_level"] = design
+    return _gen_scripts(ctx, scs, alldefs, quick)
+
+
+def _gen_scripts(ctx, scs, alldefs, quick, exhaustive_first=True):
     scripts = []
     per = 2500 if quick else 25000
+    if not exhaustive_first:
+        per = 600 if quick else 6000
     for pul in ("TRUE", "FALSE"):
         g = ctx.tlc("MessagePipeline", "Gen_MessagePipeline.cfg", name="sim_pul" + pul, consts={"ParkUnderLock": pul}, defs=alldefs,
                     workers=1, simulate="num=%d" % per, depth=300, timeout=1500, heap="8g")
         scripts += [(pul, h) for h in g.printed.get("SCRIPT", [])]
     # exhaustive for the smallest scenario
-    g = ctx.tlc("MessagePipeline", "Gen_MessagePipeline.cfg", name="gen_s0", consts={"ParkUnderLock": "FALSE"},
-                defs=dict(DEFS0, Scenarios="<<" + tla_scen(scs[0]) + ">>"), workers=1, timeout=1500, heap="8g")
-    for h in g.printed.get("SCRIPT", []):
-        h[-1]["si"] = 1
-        scripts.append(("FALSE", h))
+    if exhaustive_first:
+        g = ctx.tlc("MessagePipeline", "Gen_MessagePipeline.cfg", name="gen_s0", consts={"ParkUnderLock": "FALSE"},
+                    defs=dict(DEFS0, Scenarios="<<" + tla_scen(scs[0]) + ">>"), workers=1, timeout=1500, heap="8g")
+        for h in g.printed.get("SCRIPT", []):
+            h[-1]["si"] = 1
+            scripts.append(("FALSE", h))
     seen, out = set(), []
     for pul, h in scripts:
         si = h[-1]["si"]
@@ -97,8 +110,10 @@ def gen(ctx):
         out.append({"id": len(out), "cfg": cfg, "steps": [s for s in h if s["act"] == "step"], "expect": h[-1]})
     # model-independent schedules (vf.blind_schedules)
     nb = 200 if quick else 3000
+    if not exhaustive_first:
+        nb = 120 if quick else 1500
     for si, sc in enumerate(scs):
-        threads = ["arr", "loop"] + ["k_" + d for d in sorted(sc["regs"])] + (["cancel"] if sc["cancel"] else [])
+        threads = ["arr", "loop"] + ["k_" + d for d in sorted(sc["regs"])] + (["cancel"] if sc["cancel"] else []) + (["kc"] if sc.get("kcancel") else [])
         for seq in vf.blind_schedules(ctx.rng, threads, nb, 20 + 8 * len(threads)):
             out.append({"id": len(out), "cfg": dict(sc, scen=si + 1, devof=DEVOF, ctrof=CTROF, model_park_under_lock="blind"),
                         "steps": [{"act": "step", "d": t} for t in seq], "expect": {}})
@@ -111,7 +126,7 @@ def to_pc(e):
     if e.get("ev") != "step":
         return e
     t, to = e.get("t", ""), str(e.get("to", ""))
-    if to in ("done", "start", "k_reg", "c_cancel"):
+    if to in ("done", "start", "k_reg", "c_cancel", "kc_cancel"):
         pc = to
     elif to.startswith("blocked:"):
         pc = "w_parked"
@@ -140,22 +155,32 @@ def to_pc(e):
     return dict(e, topc=pc)
 
 
-def run(ctx, replay=None):
+def run_retry_part(ctx):
+    """C02 at the store layer ("provided a message that fails is retried after others have been opened"): the
+    ratchet-window and late-joiner scenarios of the message pipeline only, judged by MonPipeline.tla; violations are
+    reported under the calling property"""
+    scs = [s for s in scenarios(ctx.tier) if s.get("win") or s.get("regat")]
+    return run(ctx, None, scs=scs, part="retry")
+
+
+def run(ctx, replay=None, scs=None, part=None):
     rep, skel = ctx.instrument(["store_message.go", "internal/queue/simple.go", "internal/queue/priority.go"],
                                funcs={"store_message.go": FUNCS})
     ov = ctx.overlay({PKG: ["vf_pipeline_verif_test.go"]}, replace=rep)
     if replay:
         scripts = [json.load(open(replay))["script"]]
     else:
-        scripts = gen(ctx)
+        scripts = gen(ctx, scs, design_level=part is None)
     cap = 5000 if ctx.tier == "quick" else 60000
+    if part:
+        cap = 1500 if ctx.tier == "quick" else 15000
     ctx.extra["behaviours_generated"] = len(scripts)
     if len(scripts) > cap:
         scripts = ctx.rng.sample(scripts, cap)
     binary = ctx.go_test_compile(PKG, ov, name="pipeline", timeout=2400)
     events = ctx.run_sharded(binary, DRV, PKG, scripts, "pipeline", shards=6 if ctx.tier == "quick" else 12, chunk=400, timeout=1500)
     byid = {s["id"]: s for s in scripts}
-    scs = scenarios(ctx.tier)
+    scs = scs or scenarios(ctx.tier)
     cdefs = dict(DEFS0, Scenarios="<<" + ", ".join(tla_scen(x) for x in scs) + ">>")
     acc, rejects = vf.validate_blocks(ctx, MON, events, "pipeline", conf=("TracePipeline", "Trace_Pipeline.cfg"), defs=cdefs,
                                       conf_consts={"ParkUnderLock": "TRUE", "SignalBuffered": "TRUE", "RequeueAll": "TRUE"}, conf_map=to_pc)
@@ -183,11 +208,17 @@ def run(ctx, replay=None):
             what = "pipeline deadlock: %s (schedule %s)" % (line.get("threads"), sched)
         else:
             key = "pipeline:" + json.dumps(line, sort_keys=True)[:200]
-            what = "message pipeline breaks C08 at step %s: %s" % (rj["at"], json.dumps(line, sort_keys=True)[:400])
-        ctx.classify(key, what, {"script": sc, "observed": rj["events"], "rejected_line": line})
+            what = "message pipeline breaks %s at step %s: %s" % (ctx.prop, rj["at"], json.dumps(line, sort_keys=True)[:400])
+        if part:
+            ctx.violation("store layer (%s): %s" % (part, what), {"script": sc, "observed": rj["events"], "rejected_line": line, "family": "pipeline-" + part})
+        else:
+            ctx.classify(key, what, {"script": sc, "observed": rj["events"], "rejected_line": line})
     for s in scripts[:1]:
         ctx.add_samples([{"scenario": {k: s["cfg"].get(k) for k in ("arr", "regs", "known", "cancel", "win", "regat")},
                           "schedule": [x["d"] for x in s["steps"]], "observed_final": blocks.get(s["id"], [])[-1:]}], limit=2)
+    if part:
+        ctx.extra["store_layer_" + part] = {"scenarios": len(scs), "schedules": len(scripts)}
+        return None
     ctx.assumptions += ["hand-built MessageStore (real secret store, queues, event bus; no orbit-db): entries are fed through addToMessageQueue as the store's subscriber does",
                         "scenarios with win=2 exercise the retry of a message that overtook its predecessors beyond the ratchet window (C02's formula); the other scenarios stay inside the default window; interleavings at lock/channel operations only"]
     return ctx.finish(level="model_checking",
